@@ -214,8 +214,22 @@ class G:
             return "(" + ", ".join(parts) + ")", t
         if k == "or":
             t = r.choice(["I", "S"])
-            a = self.join([self.assertion_false_or_true(), self.leaf(t)])
-            return "(" + a + " || " + self.leaf(t) + ")", t
+            if r.random() < 0.5:
+                a = self.join([self.assertion_false_or_true(), self.leaf(t)])
+                return "(" + a + " || " + self.leaf(t) + ")", t
+            # branches that yield several times each: the branch being drained
+            # is state of the execution, not of the query
+            def many():
+                k = r.random()
+                n = r.randint(2, 4)
+                if k < 0.4:
+                    return "(" + ", ".join(self.leaf(t) for _ in range(n)) + ")"
+                if k < 0.7:
+                    return "[" + ", ".join(self.leaf(t) for _ in range(n)) + "] elem"
+                if k < 0.85:
+                    return self.join([self.assertion_false_or_true(), "(" + ", ".join(self.leaf(t) for _ in range(n)) + ")"])
+                return self.leaf(t)
+            return "(" + " || ".join(many() for _ in range(r.randint(2, 3))) + ")", t
         if k == "if":
             t = r.choice(["I", "S"])
             c = self.cond(stack, depth + 1)
@@ -315,6 +329,8 @@ class G:
         ch = ["push"] * 6
         if len(stack) >= 1:
             ch += ["unary"] * 4 + ["shuf1"] * 2 + ["assert1"] * 2 + ["fmt"] + ["let"]
+            if top == "S":
+                ch += ["strrel"] * 3
         if len(stack) >= 2:
             ch += ["binary"] * 4 + ["shuf2"] * 3 + ["assert2"] * 2 + ["scope"]
         if len(stack) >= 3:
@@ -357,6 +373,8 @@ class G:
             return "?(type T_CONST !eq)", stack
         if k == "assert2":
             a, b = stack[-2], stack[-1]
+            if a == "S" and b == "S" and r.random() < 0.5:
+                return r.choice(["?find", "?starts", "?ends", "!find", "!starts", "!ends", "?match", "!match"]), stack
             if a == b and a in ("I", "S"):
                 return r.choice(["?eq", "!eq", "?ne", "?lt", "?gt", "?le", "?ge", "!lt"]), stack
             if a == b:
@@ -364,8 +382,19 @@ class G:
             if a == "S" and b == "S":
                 return r.choice(["?find", "?starts", "?ends", "!find", "?match", "!match"]), stack
             return r.choice(["?eq", "!eq"]), stack
+        if k == "strrel":
+            # a string next to one made from it (longer, shorter, equal): the
+            # boundary cases of the string predicates
+            lit = self.str_lit() if r.random() < 0.7 else r.choice(['"\\x00"', '"\\x00ab"', '"a"'])
+            if lit.startswith("r") or "\\ " in lit:
+                lit = '"ab"'
+            form = r.choice(["dup %s swap add" % lit, "dup %s add" % lit, "dup", "dup dup add",
+                             "dup %s swap add %s add" % (lit, lit), lit,
+                             "dup %s swap add" % lit])
+            pred = r.choice(["?ends", "!ends", "?starts", "!starts", "?find", "!find", "?eq", "?match", "!match"])
+            return self.join([form, "swap" if r.random() < 0.4 else "", pred]), stack + ["S"]
         if k == "numword":
-            return r.choice(["?0", "!0", "?1", "!1", "?2"]), stack
+            return r.choice(["?0", "!0", "?1", "!1", "?2", "!2", "?3"]), stack
         if k == "fmt":
             t = self.fmt(stack, depth + 1, consume=True)
             return t, stack[:len(stack) - self._fmt_pops] + ["S"]
